@@ -640,7 +640,16 @@ func (e *SpecEnv) call(x ECall) SVal {
 		i := e.value(e.eval(x.Args[1]))
 		v := e.value(e.eval(x.Args[2]))
 		return SVal{T: Store(a.T, i.T, v.T)}
-	case "app", "app1", "apppanics": // callback application model (see callbackCall)
+	case "box": // box(x): the interface value holding x (dynamic type = x's static Go type)
+		v := e.value(e.eval(x.Args[0]))
+		if v.Go == nil {
+			sfail("box(): argument has no Go type")
+		}
+		if _, isI := v.Go.Underlying().(*types.Interface); isI {
+			return v
+		}
+		return SVal{T: MkIface(IntLit(int64(e.W.Sorts.Tag(v.Go))), e.W.Sorts.Box(v.T)), Go: types.NewInterfaceType(nil, nil)}
+	case "app", "app1", "apppanics", "apppv": // callback application model (see callbackCall)
 		fv := e.value(e.eval(x.Args[0]))
 		sig, ok := fv.Go.Underlying().(*types.Signature)
 		if fv.Go == nil || !ok {
@@ -655,6 +664,9 @@ func (e *SpecEnv) call(x ECall) SVal {
 		}
 		if x.Fun == "apppanics" {
 			return SVal{T: App(e.W.AppFun("apppanics", sorts, SBool, 0), SBool, args...), Go: boolT}
+		}
+		if x.Fun == "apppv" {
+			return SVal{T: App(e.W.AppFun("apppv", sorts, SIface, 0), SIface, args...), Go: types.NewInterfaceType(nil, nil)}
 		}
 		idx := 0
 		if x.Fun == "app1" {
